@@ -129,9 +129,16 @@ where
     /// Completes the Call. This involves storing the provided result into the Call
     /// and notifying all waiters that there is a value.
     fn complete(&self, res: SingleflightResult<T, E>) {
+        // Verification hooks: schedule points that are live only where the result lock is not held.
+        #[cfg(xet_verif)]
+        crate::verif::point("singleflight:complete:entry");
         // write-lock
         let mut val = self.res.write();
         *val = Some(res);
+        #[cfg(xet_verif)]
+        if self.res.try_read().is_some() {
+            crate::verif::point("singleflight:complete:unlocked_between_store_and_notify");
+        }
         self.nt.notify_waiters();
         let num_waiters = self.num_waiters.load(Ordering::SeqCst);
         debug!("Completed Call with: {} waiters", num_waiters);
@@ -150,6 +157,12 @@ where
             // no result yet, we are a waiter task.
             self.num_waiters.fetch_add(1, Ordering::SeqCst);
             debug!("Adding to Call's Notify");
+            // Verification hook: a schedule point that is live only if nobody (including this thread) holds the
+            // result lock here, i.e. only if the registration below is *not* covered by the read lock.
+            #[cfg(xet_verif)]
+            if self.res.try_write().is_some() {
+                crate::verif::point("singleflight:get_future:unlocked_before_register");
+            }
 
             // Note that the `notified()` needs to be performed outside of the async
             // block since we need to register our waiting within this read-lock
